@@ -187,10 +187,17 @@ void harness(void) {
 
 #ifdef H_http_dispatch
 void harness(void) {
-	int res; size_t i; int e; _Bool have_fl = nondet_bool(), have_rc = nondet_bool(); CurlAsyncRequest *fl = NULL, *rcy = NULL;
+	int res; size_t i; int e; _Bool have_fl = nondet_bool(), have_rc = nondet_bool();
+#ifdef H_NO_FL
+	_Bool no_fl = 1;
+#else
+	_Bool no_fl = 0;
+#endif
+	CurlAsyncRequest *fl = NULL, *rcy = NULL;
 	int fl_state0 = 0, e_of[T2_QMAX]; size_t fl_len0 = 0; size_t n_dispatched = 0, n_timeout = 0; _Bool add_failed = 0, restarted;
 	unsigned long long maxc, sto, dur;
 	t3_setup(2);
+	if (no_fl) { have_fl = 0; have_rc = 0; }
 	/* T2H(2) is the request of a transfer that is already in flight (never in the queue) */
 	if (have_fl) { fl = t3_mk_transfer(1, &T2H(2)); fl_state0 = T2H(2).state; fl_len0 = fl->len; }
 	if (have_rc) { rcy = t3_mk_transfer(0, NULL); t3_rc[0] = rcy; t3_rc_len = 1; }
@@ -212,7 +219,7 @@ void harness(void) {
 		} else if (T2H(i).state == KSI_ASYNC_STATE_ERROR && T2H(i).err == KSI_NETWORK_SEND_TIMEOUT) {
 			n_timeout++;
 			__CPROVER_assert(spec_async_timed_out(t2_now, t2_reqTime0[i], sto) && t3_href[i] == 0, "http send time-out => the configured time has elapsed and the request was never handed to curl");
-		} else if (T2H(i).state == KSI_ASYNC_STATE_ERROR && T2H(i).err == KSI_NETWORK_ERROR && t3_add_res != CURLM_OK && t2_rm_order[i] > 0) {
+		} else if (T2H(i).state == KSI_ASYNC_STATE_ERROR && T2H(i).err == KSI_NETWORK_ERROR && (t3_add_res != CURLM_OK || t3_perform_res != CURLM_OK) && t2_rm_order[i] > 0) {
 			add_failed = 1;
 		} else {
 			n_dispatched++;
